@@ -54,6 +54,22 @@ func main() {
 		os.Exit(2)
 	}
 	c := mc.NewCtx(id, mode)
+	if path := os.Getenv("VERIF_PARTIAL"); mc.IsShardWorker() && path != "" {
+		// shard worker: run, export, leave the verdict to the parent
+		p.Run(c)
+		if err := c.ExportPartial(path); err != nil {
+			fmt.Fprintln(os.Stderr, err)
+			os.Exit(2)
+		}
+		os.Exit(0)
+	}
+	if p.Procs && mc.Workers() > 1 {
+		if err := c.RunSharded(mc.Workers(), []string{id, mode}); err != nil {
+			fmt.Fprintln(os.Stderr, "harness error:", err)
+			os.Exit(2)
+		}
+		os.Exit(c.Finish())
+	}
 	p.Run(c)
 	os.Exit(c.Finish())
 }
